@@ -41,6 +41,10 @@ func runC16(c *engine.Ctx) {
 		{"assert", func() { c16ImpossibleAssert(c, "R21") }},
 		{"bufio", func() { checkThrowawayBufio(c, "R22") }},
 		{"waitlock", func() { checkNoWaitUnderLock(c, li, "R23") }},
+		{"wirelen", func() { c16WireLengthArith(c, "R24") }},
+		{"pooled", func() { checkPooledEscape(c, "R25") }},
+		{"deferuse", func() { checkDeferredUseOfResult(c, "R26") }},
+		{"deadline", func() { checkDeadlineCleared(c, "R27") }},
 	}
 	for _, s := range steps {
 		t0 := time.Now()
@@ -99,6 +103,90 @@ func c16MapsRule(c *engine.Ctx, li *engine.LockInfo, rule string) {
 				for m := range si.maps {
 					byMap[m] = si
 				}
+			}
+		}
+	}
+	// a struct without a mutex of its own whose only holder is a field of a mutex-carrying struct (serverMetrics.info
+	// *ServerStatistics) is guarded by the holder's mutexes
+	holders := map[*types.Named][]*sinfo{}
+	holderCount := map[*types.Named]int{}
+	for _, pk := range p.Pkgs {
+		if pk.Types == nil {
+			continue
+		}
+		for _, name := range pk.Types.Scope().Names() {
+			tn, ok := pk.Types.Scope().Lookup(name).(*types.TypeName)
+			if !ok {
+				continue
+			}
+			st, ok := tn.Type().Underlying().(*types.Struct)
+			if !ok {
+				continue
+			}
+			var own *sinfo
+			mus := map[*types.Var]bool{}
+			for i := 0; i < st.NumFields(); i++ {
+				if isMutexType(st.Field(i).Type()) {
+					mus[st.Field(i)] = true
+				}
+			}
+			for i := 0; i < st.NumFields(); i++ {
+				inner := engine.NamedOf(st.Field(i).Type())
+				if inner == nil || inner.Obj().Pkg() != pk.Types {
+					continue
+				}
+				if _, isStruct := inner.Underlying().(*types.Struct); !isStruct {
+					continue
+				}
+				holderCount[inner]++
+				if len(mus) > 0 {
+					if own == nil {
+						own = &sinfo{name: strings.TrimPrefix(pk.PkgPath, engine.ModPath+"/") + "." + name, mus: mus, maps: map[*types.Var]bool{}}
+					}
+					holders[inner] = append(holders[inner], own)
+				}
+			}
+		}
+	}
+	// the holder owns the inner struct: some function stores a freshly allocated inner value into the holder's field
+	ownsFresh := map[*types.Named]bool{}
+	for _, f := range p.RepoFuncs() {
+		engine.ForEachInstr(f, func(in ssa.Instruction) {
+			st, ok := in.(*ssa.Store)
+			if !ok {
+				return
+			}
+			fv, _ := engine.LoadedField(st.Addr)
+			if fv == nil {
+				return
+			}
+			inner := engine.NamedOf(fv.Type())
+			if inner == nil || len(holders[inner]) == 0 {
+				return
+			}
+			if al, ok := engine.Unwrap(st.Val).(*ssa.Alloc); ok && engine.NamedOf(al.Type()) == inner {
+				ownsFresh[inner] = true
+			}
+		})
+	}
+	for inner, hs := range holders {
+		if len(hs) != 1 || holderCount[inner] != 1 || !ownsFresh[inner] {
+			continue
+		}
+		ist := inner.Underlying().(*types.Struct)
+		hasMu := false
+		for i := 0; i < ist.NumFields(); i++ {
+			if isMutexType(ist.Field(i).Type()) {
+				hasMu = true
+			}
+		}
+		if hasMu {
+			continue
+		}
+		for i := 0; i < ist.NumFields(); i++ {
+			fv := ist.Field(i)
+			if _, ok := fv.Type().Underlying().(*types.Map); ok && byMap[fv] == nil {
+				byMap[fv] = &sinfo{name: hs[0].name + "→" + inner.Obj().Name(), mus: hs[0].mus, maps: map[*types.Var]bool{fv: true}}
 			}
 		}
 	}
@@ -1477,6 +1565,55 @@ func c16CheckThenAct(c *engine.Ctx, rule string) {
 		}
 	}
 	c.Floor(n, 5)
+	// the same for a sync.Map: Load followed by Store of the same table is two operations, however "concurrent" the
+	// type is — claiming an entry needs LoadOrStore (or a mutex around both)
+	for _, f := range p.RepoFuncs() {
+		loads := map[*types.Var][]ssa.Instruction{}
+		stores := map[*types.Var][]ssa.Instruction{}
+		engine.ForEachInstr(f, func(in ssa.Instruction) {
+			call, ok := in.(*ssa.Call)
+			if !ok {
+				return
+			}
+			o := engine.CalleeObj(call)
+			if o == nil || o.Pkg() == nil || o.Pkg().Path() != "sync" {
+				return
+			}
+			recv := o.Type().(*types.Signature).Recv()
+			if recv == nil || !engine.IsNamed(recv.Type(), "sync", "Map") {
+				return
+			}
+			args := engine.CallArgs(call)
+			if len(args) == 0 {
+				return
+			}
+			var fv *types.Var
+			if fa, ok := engine.Unwrap(args[0]).(*ssa.FieldAddr); ok {
+				if st, ok := engine.Deref(fa.X.Type()).Underlying().(*types.Struct); ok {
+					fv = st.Field(fa.Field)
+				}
+			}
+			if fv == nil {
+				return
+			}
+			switch o.Name() {
+			case "Load", "Range":
+				loads[fv] = append(loads[fv], in)
+			case "Store", "Swap":
+				stores[fv] = append(stores[fv], in)
+			}
+		})
+		for fv, ls := range loads {
+			for _, l := range ls {
+				for _, w := range stores[fv] {
+					if engine.InstrReaches(l, w) {
+						c.Violate(fmt.Sprintf("%s>%s>load-then-store", p.FuncName(f), fv.Name()), w.Pos(), nil,
+							"the sync.Map %s is consulted with %s and then written with Store in the same function: the two are not one atomic step, two callers can both find the entry absent and both store (use LoadOrStore, or a mutex around both)", fv.Name(), engine.CalleeObj(l.(*ssa.Call)).Name())
+					}
+				}
+			}
+		}
+	}
 }
 
 // c16DivByLen: `x % len(s)` and `x / len(s)` panic (integer divide by zero) when s is empty — in a goroutine without
@@ -1725,6 +1862,16 @@ func checkThrowawayBufio(c *engine.Ctx, rule string) {
 			var later ssa.Instruction
 			engine.ForEachInstr(f, func(x ssa.Instruction) {
 				if later != nil || x == in {
+					return
+				}
+				if r, isRet := x.(*ssa.Return); isRet && engine.InstrReaches(in, x) {
+					// handed back to the caller, which goes on using it
+					for _, rv := range r.Results {
+						av := engine.Unwrap(rv)
+						if av == under || engine.SameExpr(av, under) {
+							later = x
+						}
+					}
 					return
 				}
 				cc, ok := x.(ssa.CallInstruction)
